@@ -56,6 +56,7 @@ type c07Gen struct {
 	perRead int   // max bytes handed out per Read (0 = as much as the caller asks for)
 	cap     int64 // safety cap: a consumer that pulls more than this is cut off (runaway = true)
 	runaway bool
+	formFill int64 // >= 0: the body is a well-formed multipart form whose single part carries this many bytes
 }
 
 func (g *c07Gen) lit(b string)         { g.segs = append(g.segs, c07Seg{pre: []byte(b), rep: 1}) }
@@ -199,6 +200,20 @@ type c07Sc struct {
 	Expect   bool   `json:"expect,omitempty"`  // server: the request carries Expect: 100-continue (body read by ContinueReadBody)
 	PerReq   bool   `json:"per_req,omitempty"` // server: L is set per request through Server.HeaderReceived, the server-wide limit is 64 MiB
 	Hist     []c07Req `json:"hist,omitempty"`  // server-history: the requests sent on ONE keep-alive connection
+	CT         string `json:"ct,omitempty"`          // request content type: form | multipart | multipart-file | multipart-ce (multipart + Content-Encoding)
+	NoPreParse bool   `json:"no_preparse,omitempty"` // DisablePreParseMultipartForm / ContinueReadBody(..., false)
+}
+
+// c07KindTag names framing + content type for violation signatures.
+func c07KindTag(sc c07Sc) string {
+	t := sc.Kind
+	if sc.CT != "" {
+		t += "-" + sc.CT
+		if sc.NoPreParse {
+			t += "-nopreparse"
+		}
+	}
+	return t
 }
 
 // c07Req is one request of a connection history: Ov is the per-request limit HeaderReceived returns for it (0 = no
@@ -222,11 +237,28 @@ func c07Body(g *c07Gen, head string, sc c07Sc, limit int64) (proofOff int64, tot
 		total = c07Endless
 	}
 	proofOff = -1
+	g.formFill = -1
+	switch sc.CT {
+	case "form":
+		head += "Content-Type: application/x-www-form-urlencoded\r\n"
+	case "multipart", "multipart-file":
+		head += "Content-Type: multipart/form-data; boundary=" + c07Boundary + "\r\n"
+	case "multipart-ce":
+		head += "Content-Type: multipart/form-data; boundary=" + c07Boundary + "\r\nContent-Encoding: gzip\r\n"
+	}
 	switch sc.Kind {
 	case "cl":
 		head += "Content-Length: " + strconv.FormatInt(sc.Declared, 10) + "\r\n\r\n"
 		g.lit(head)
-		g.fill('x', total)
+		pre, suf := c07FormParts(sc.CT == "multipart-file")
+		if fillN := total - int64(len(pre)+len(suf)); strings.HasPrefix(sc.CT, "multipart") && fillN >= 0 {
+			g.lit(pre)
+			g.fill('x', fillN)
+			g.lit(suf)
+			g.formFill = fillN
+		} else {
+			g.fill('x', total)
+		}
 		if sc.Declared > limit {
 			proofOff = int64(len(head))
 		}
@@ -369,20 +401,33 @@ func c07RunServer(r *vrt.R, st *c07Stats, sc c07Sc) {
 	}
 	proofOff, total := c07Body(g, head, sc, limit)
 	g.cap = limit*8 + 64<<20
+	isForm := strings.HasPrefix(sc.CT, "multipart")
+	if isForm {
+		g.cap = limit*2 + 8<<20 // an unbounded pre-parse would spill file parts to disk: cut it off early
+	}
 	conn := &c07Conn{gen: g}
 	var calls int
 	var seen []int
 	var intact = true
+	formParsed := false
 	s := &Server{
 		Handler: func(ctx *RequestCtx) {
 			calls++
-			b := ctx.Request.Body()
-			seen = append(seen, len(b))
-			if !c07AllX(b) {
-				intact = false
+			if f := ctx.Request.multipartForm; f != nil {
+				// pre-parsed form: Body() would re-marshal it; what was buffered is the content of its parts
+				n, _ := c07FormSize(f)
+				seen = append(seen, int(n))
+				formParsed = true
+			} else {
+				b := ctx.Request.Body()
+				seen = append(seen, len(b))
+				if !isForm && !c07AllX(b) {
+					intact = false
+				}
 			}
 			ctx.SetStatusCode(200)
 		},
+		DisablePreParseMultipartForm: sc.NoPreParse,
 		MaxRequestBodySize: sc.L,
 		ReadBufferSize:     sc.RBS,
 		Logger:             c07NopLogger{},
@@ -407,37 +452,41 @@ func c07RunServer(r *vrt.R, st *c07Stats, sc c07Sc) {
 	for _, n := range seen {
 		st.max("server_max_dispatched_body", int64(n))
 		if int64(n) > limit {
-			r.Violation("server-"+sc.Kind+"-body-over-limit-dispatched", what(fmt.Sprintf("handler received a %d byte body, limit %d", n, limit)), sc)
+			r.Violation("server-"+c07KindTag(sc)+"-body-over-limit-dispatched", what(fmt.Sprintf("handler received a %d byte body, limit %d", n, limit)), sc)
 		}
 	}
 	if g.runaway {
-		r.Violation("server-"+sc.Kind+"-keeps-pulling-past-limit", what("the server pulled more than 8*L+64 MiB from the connection"), sc)
+		r.Violation("server-"+c07KindTag(sc)+"-keeps-pulling-past-limit", what("the server pulled more than 8*L+64 MiB from the connection"), sc)
 		return
 	}
 	if over {
 		st.add("server_over_limit_cases", 1)
 		r.Nontrivial("server-over-" + sc.String())
 		if calls != 0 {
-			r.Violation("server-"+sc.Kind+"-over-limit-request-dispatched", what("handler was called for a request whose body exceeds the limit"), sc)
+			r.Violation("server-"+c07KindTag(sc)+"-over-limit-request-dispatched", what("handler was called for a request whose body exceeds the limit"), sc)
 		}
 		if len(codes) != 1 || codes[0] < 400 {
-			r.Violation("server-"+sc.Kind+"-over-limit-no-error-response", what("expected exactly one error response (status >= 400)"), sc)
+			r.Violation("server-"+c07KindTag(sc)+"-over-limit-no-error-response", what("expected exactly one error response (status >= 400)"), sc)
 		} else {
 			st.add(fmt.Sprintf("server_over_limit_status_%d", codes[0]), 1)
 		}
 		if conn.closed == 0 {
-			r.Violation("server-"+sc.Kind+"-over-limit-not-closed", what("connection was not closed after the error response"), sc)
+			r.Violation("server-"+c07KindTag(sc)+"-over-limit-not-closed", what("connection was not closed after the error response"), sc)
 		}
 		if conn.readsAfterWrite > 0 {
-			r.Violation("server-"+sc.Kind+"-over-limit-reads-after-error-response", what("server kept reading after the error response"), sc)
+			r.Violation("server-"+c07KindTag(sc)+"-over-limit-reads-after-error-response", what("server kept reading after the error response"), sc)
 		}
 		if b := c07Bound(sc, proofOff); g.pulled > b {
-			r.Violation("server-"+sc.Kind+"-pulled-past-limit", what(fmt.Sprintf("pulled %d bytes, bound %d (= offset %d where the excess is proven + read buffer)", g.pulled, b, proofOff)), sc)
+			r.Violation("server-"+c07KindTag(sc)+"-pulled-past-limit", what(fmt.Sprintf("pulled %d bytes, bound %d (= offset %d where the excess is proven + read buffer)", g.pulled, b, proofOff)), sc)
 		}
 		st.max("server_max_pulled_minus_proof", g.pulled-proofOff)
 	} else {
 		st.add("server_within_limit_cases", 1)
-		if calls == 1 && int64(seen[0]) == total && intact && len(codes) == 1 && codes[0] == 200 {
+		want := total
+		if formParsed {
+			want = g.formFill
+		}
+		if calls == 1 && int64(seen[0]) == want && intact && len(codes) == 1 && codes[0] == 200 {
 			st.add("server_within_limit_accepted", 1)
 			if total == limit {
 				r.Nontrivial("server-at-limit-" + sc.String())
@@ -493,9 +542,30 @@ func c07RunDirect(r *vrt.R, st *c07Stats, sc c07Sc) {
 		return
 	}
 	proofOff, total := c07Body(g, "PUT /u HTTP/1.1\r\nHost: h\r\n", sc, limit)
+	if strings.HasPrefix(sc.CT, "multipart") {
+		g.cap = limit*2 + 8<<20
+	}
 	var req Request
-	err := req.ReadLimitBody(br, sc.L)
-	c07JudgeRead(r, st, sc, "Request.ReadLimitBody", g, proofOff, total, limit, err, req.Body())
+	var err error
+	who := "Request.ReadLimitBody"
+	if sc.NoPreParse {
+		who = "Request.ContinueReadBody"
+		if err = req.Header.Read(br); err == nil {
+			err = req.ContinueReadBody(br, sc.L, false)
+		}
+	} else {
+		err = req.ReadLimitBody(br, sc.L)
+	}
+	var body []byte
+	if f := req.multipartForm; err == nil && f != nil {
+		n, _ := c07FormSize(f)
+		body = bytes.Repeat([]byte("x"), int(n)) // stands for the buffered content of the pre-parsed form
+		total = g.formFill
+		req.RemoveMultipartFormFiles()
+	} else {
+		body = req.Body()
+	}
+	c07JudgeRead(r, st, sc, who, g, proofOff, total, limit, err, body)
 }
 
 func c07JudgeRead(r *vrt.R, st *c07Stats, sc c07Sc, who string, g *c07Gen, proofOff, total, limit int64, err error, body []byte) {
@@ -503,30 +573,30 @@ func c07JudgeRead(r *vrt.R, st *c07Stats, sc c07Sc, who string, g *c07Gen, proof
 		return fmt.Sprintf("%s: %s (err=%v, body %d bytes, pulled %d)", sc, msg, err, len(body), g.pulled)
 	}
 	if g.runaway {
-		r.Violation(who+"-"+sc.Kind+"-keeps-pulling-past-limit", what("pulled more than 8*L+64 MiB from the source"), sc)
+		r.Violation(who+"-"+c07KindTag(sc)+"-keeps-pulling-past-limit", what("pulled more than 8*L+64 MiB from the source"), sc)
 		return
 	}
 	if err == nil && int64(len(body)) > limit {
-		r.Violation(who+"-"+sc.Kind+"-returned-body-over-limit", what(fmt.Sprintf("returned %d body bytes with limit %d", len(body), limit)), sc)
+		r.Violation(who+"-"+c07KindTag(sc)+"-returned-body-over-limit", what(fmt.Sprintf("returned %d body bytes with limit %d", len(body), limit)), sc)
 	}
 	if proofOff >= 0 {
 		st.add(who+"_over_limit_cases", 1)
 		r.Nontrivial(who + "-over-" + sc.String())
 		if err == nil {
-			r.Violation(who+"-"+sc.Kind+"-over-limit-accepted", what("a body larger than the limit was accepted"), sc)
+			r.Violation(who+"-"+c07KindTag(sc)+"-over-limit-accepted", what("a body larger than the limit was accepted"), sc)
 		} else if !errors.Is(err, ErrBodyTooLarge) {
-			r.Violation(who+"-"+sc.Kind+"-over-limit-error-is-not-ErrBodyTooLarge", what("expected ErrBodyTooLarge"), sc)
+			r.Violation(who+"-"+c07KindTag(sc)+"-over-limit-error-is-not-ErrBodyTooLarge", what("expected ErrBodyTooLarge"), sc)
 		} else {
 			st.add(who+"_ErrBodyTooLarge", 1)
 		}
 		if b := c07Bound(sc, proofOff); g.pulled > b {
-			r.Violation(who+"-"+sc.Kind+"-pulled-past-limit", what(fmt.Sprintf("pulled %d bytes, bound %d (= offset %d where the excess is proven + read buffer)", g.pulled, b, proofOff)), sc)
+			r.Violation(who+"-"+c07KindTag(sc)+"-pulled-past-limit", what(fmt.Sprintf("pulled %d bytes, bound %d (= offset %d where the excess is proven + read buffer)", g.pulled, b, proofOff)), sc)
 		}
 		st.max(who+"_max_pulled_minus_proof", g.pulled-proofOff)
 		st.max(who+"_max_retained_minus_limit_on_error", int64(len(body))-limit)
 	} else {
 		st.add(who+"_within_limit_cases", 1)
-		if err == nil && int64(len(body)) == total && c07AllX(body) {
+		if err == nil && int64(len(body)) == total && (c07AllX(body) || strings.HasPrefix(sc.CT, "multipart")) {
 			st.add(who+"_within_limit_accepted", 1)
 			if total == limit {
 				r.Nontrivial(who + "-at-limit-" + sc.String())
@@ -1236,6 +1306,35 @@ func c07Scenarios(r *vrt.R) []c07Sc {
 		bodyShapes("client", L, true)
 	}
 	rbss, perReads = save1, save2
+	// request content types x pre-parse on/off (default buffers): form-urlencoded, well-formed multipart forms of exactly
+	// the given size (one value field / one file part), multipart with a Content-Encoding (never pre-parsed)
+	{
+		pre, suf := c07FormParts(true)
+		minForm := int64(len(pre) + len(suf))
+		for _, mode := range []string{"server", "req-direct"} {
+			for _, L := range limits {
+				for _, ct := range []string{"form", "multipart", "multipart-file", "multipart-ce"} {
+					for _, npp := range []bool{false, true} {
+						seen := map[int64]bool{}
+						for _, d := range []int64{int64(L) - 1, int64(L), int64(L) + 1, int64(L) + 5000, 4*int64(L) + 7} {
+							if strings.HasPrefix(ct, "multipart") && d < minForm {
+								d = minForm
+							}
+							if d <= 0 || seen[d] {
+								continue
+							}
+							seen[d] = true
+							out = append(out, c07Sc{Mode: mode, L: L, Kind: "cl", Declared: d, Total: d, CT: ct, NoPreParse: npp})
+						}
+						out = append(out, c07Sc{Mode: mode, L: L, Kind: "cl", Declared: 1 << 40, Total: -1, CT: ct, NoPreParse: npp})
+						cs := int64(4096)
+						out = append(out, c07Sc{Mode: mode, L: L, Kind: "chunked", Total: int64(L) + 1, CSize: min(cs, int64(L)+1), CT: ct, NoPreParse: npp})
+						out = append(out, c07Sc{Mode: mode, L: L, Kind: "chunked", Total: int64(L), CSize: min(cs, int64(L)), CT: ct, NoPreParse: npp})
+					}
+				}
+			}
+		}
+	}
 	// connection histories with per-request limits (HeaderReceived): server limit L, overrides 4L and L/4
 	for _, L := range vrt.Pick(r, []int{4096}, []int{100, 4096, 65536}) {
 		for _, h := range c07Histories(L, 3) {
@@ -1309,6 +1408,7 @@ func TestVerif_C07(t *testing.T) {
 		"chunked with chunk size 1/L/L+1/4096 and total L-1/L/L+1/L+5000/endless, identity-until-close L-1/L/L+1/L+5000/endless (responses); all streams come from a lazy generator that counts pulled bytes. " +
 		"Oracle: nothing larger than L is returned or dispatched; over-limit => ErrBodyTooLarge (client, readers) or exactly one status>=400 response, close and no further read (server); " +
 		"pulled bytes <= offset where the stream proves the excess + ReadBufferSize + 32 (+1 KiB initial buffer for identity bodies). " +
+		"Content types: the server and Request.ReadLimitBody / ContinueReadBody Content-Length grid (L-1/L/L+1/L+5000/4L+7/2^40-endless, plus chunked L/L+1) again with application/x-www-form-urlencoded, multipart/form-data carrying a well-formed form of exactly that size (value field / file part) and multipart + Content-Encoding, each with multipart pre-parsing on and off. "+
 		"Connection histories: every sequence of <= 3 requests on one keep-alive connection over {no per-request limit, HeaderReceived override 4L, override L/4} x body size {L/4, L/4+1, L, L+1, 4L, 4L+1} x {Content-Length, chunked} "+
 		"in which only the last request may exceed its limit: each request is bounded by the limit in force for IT (its own override, else the server limit), an over-limit request gets an error response + close and nothing after it is dispatched. "+
 		"Request heads of ReadBufferSize-1/+0/+1/x2/x10 bytes (padding in URI / one value / many lines; delivered whole, 1 or 7 bytes per read) => 431 + close when larger than the buffer, and no more than one buffer pulled. " +
